@@ -114,6 +114,7 @@ func tagKey(v *modelv1.TagValue) sortKey {
 }
 
 type oq struct {
+	crit          *wl.Crit
 	rule          string // index rule name, "" = time
 	tag           string
 	asc           bool
@@ -130,10 +131,14 @@ func (q oq) String() string {
 	if q.asc {
 		d = "asc"
 	}
-	return fmt.Sprintf("order by %s %s offset %d limit %d over [%d,%d]", by, d, q.offset, q.limit, q.lo, q.hi)
+	w := ""
+	if q.crit != nil {
+		w = " where " + q.crit.String()
+	}
+	return fmt.Sprintf("order by %s %s offset %d limit %d over [%d,%d]%s", by, d, q.offset, q.limit, q.lo, q.hi, w)
 }
 
-func genOrderQueries(tp *simcore.Tape, n int, orderTags [][2]string, tsOf []int64) []oq {
+func genOrderQueries(tp *simcore.Tape, n int, orderTags [][2]string, tsOf []int64, tags []wl.TagSpec, rowTags []map[string]*modelv1.TagValue, skipping map[string]bool) []oq {
 	lo, hi := int64(1<<62), int64(0)
 	for _, t := range tsOf {
 		lo, hi = min(lo, t), max(hi, t)
@@ -149,9 +154,12 @@ func genOrderQueries(tp *simcore.Tape, n int, orderTags [][2]string, tsOf []int6
 			a, b := tsOf[tp.Choose(len(tsOf))], tsOf[tp.Choose(len(tsOf))]
 			q.lo, q.hi = min(a, b), max(a, b)
 		}
+		if tp.Bool(1, 3) { // a filter on non-entity tags: the window is a window of the FILTERED ordered result
+			q.crit = wl.GenEq(tp, tags, rowTags, func(t wl.TagSpec) bool { return !t.Entity && !t.Indexed && !skipping[t.Name] })
+		}
 		cnt := 0
-		for _, t := range tsOf {
-			if t >= q.lo && t <= q.hi {
+		for i, t := range tsOf {
+			if t >= q.lo && t <= q.hi && q.crit.Eval(rowTags[i]) {
 				cnt++
 			}
 		}
@@ -171,7 +179,7 @@ func genOrderQueries(tp *simcore.Tape, n int, orderTags [][2]string, tsOf []int6
 		case 1:
 			q.limit = tp.Range(1, max(cnt, 1))
 		default:
-			q.limit = cnt + tp.Range(0, 5)
+			q.limit = max(1, cnt+tp.Range(0, 5))
 		}
 		qs = append(qs, q)
 	}
@@ -234,7 +242,11 @@ func runStream(e *simcore.Env, tp *simcore.Tape) {
 		for _, r := range m.Rows {
 			tsOf = append(tsOf, r.Ts)
 		}
-		qs := genOrderQueries(tp, tp.Range(3, 10), orderTags, tsOf)
+		var rowTags []map[string]*modelv1.TagValue
+		for _, r := range m.Rows {
+			rowTags = append(rowTags, r.Tags)
+		}
+		qs := genOrderQueries(tp, tp.Range(3, 10), orderTags, tsOf, s.Tags, rowTags, s.Skipping)
 		e.Event("stream tags=%v flags=%v shards=%d rows=%d history:%s", s.Tags, flags, s.Shards, len(m.Rows), hist)
 		for qi, q := range qs {
 			e.Step()
@@ -245,6 +257,10 @@ func runStream(e *simcore.Env, tp *simcore.Tape) {
 				sortDir = modelv1.Sort_SORT_ASC
 			}
 			req.OrderBy = &modelv1.QueryOrder{IndexRuleName: q.rule, Sort: sortDir}
+			req.Criteria = q.crit.Proto()
+			if q.crit != nil {
+				e.Probe("reach.ordered_window_of_filtered_result")
+			}
 			resp, qerr := n.QueryStream(req)
 			if qerr != nil {
 				if strings.Contains(qerr.Error(), "unsupported") || strings.Contains(qerr.Error(), "invalid query message") {
@@ -267,7 +283,7 @@ func runStream(e *simcore.Env, tp *simcore.Tape) {
 			var full []keyed
 			distinct := map[sortKey]bool{}
 			for _, r := range m.Rows {
-				if r.Ts < q.lo || r.Ts > q.hi {
+				if r.Ts < q.lo || r.Ts > q.hi || !q.crit.Eval(r.Tags) {
 					continue
 				}
 				k := sortKey{i: r.Ts}
@@ -291,13 +307,20 @@ func runStream(e *simcore.Env, tp *simcore.Tape) {
 				if q.rule != "" {
 					by = "tag"
 				}
-				e.Fail("ordered-window", "stream:"+cls+":by-"+by+":"+qpTag, "stream query %d (%s): %s\n  returned writes: %v", qi, q, msg, clipInts(got))
+				e.Fail("ordered-window", "stream:"+cls+":by-"+by+filteredTag(q)+":"+qpTag, "stream query %d (%s): %s\n  returned writes: %v", qi, q, msg, clipInts(got))
 				return
 			}
 		}
 		e.Nontrivial()
 		e.SetSample(map[string]any{"engine": "stream", "shards": s.Shards, "rows": len(m.Rows), "history": hist, "first_query": qs[0].String()})
 	})
+}
+
+func filteredTag(q oq) string {
+	if q.crit != nil {
+		return ":filtered"
+	}
+	return ""
 }
 
 func clipInts(v []int64) string {
@@ -358,7 +381,11 @@ func runMeasure(e *simcore.Env, tp *simcore.Tape) {
 		for _, r := range m.Rows {
 			tsOf = append(tsOf, r.Ts)
 		}
-		qs := genOrderQueries(tp, tp.Range(3, 10), nil, tsOf)
+		var rowTags []map[string]*modelv1.TagValue
+		for _, r := range m.Rows {
+			rowTags = append(rowTags, r.Tags)
+		}
+		qs := genOrderQueries(tp, tp.Range(3, 10), nil, tsOf, nil, rowTags, nil)
 		e.Event("measure tags=%v flags=%v shards=%d rows=%d history:%s", s.Tags, flags, s.Shards, len(m.Rows), hist)
 		for qi, q := range qs {
 			e.Step()
